@@ -93,6 +93,12 @@ inline void viol(std::string key, const std::string& detail) {
   hx::violation(key, detail);
 }
 
+// Known-defect configurations are entered with a small probability `--kv <name>=<pct>` (so the defect stays
+// reported under its own key without blinding the rest of the case), and never with `--kv assertsafe=1`
+// (assertion-enabled builds, where each of them aborts the process in a PPL_ASSERT).
+inline bool assert_safe() { static int v = -1; if (v < 0) v = hx::opt().geti("assertsafe", 0) ? 1 : 0; return v == 1; }
+inline bool risky(const char* name, int dflt_pct) { if (assert_safe()) return false; return coin((int) hx::opt().geti(name, dflt_pct)); }
+
 // logical-time guard shared by all sub-workloads
 #define RD_GUARD_BEGIN try { pplx::Weight_Guard wg__(200000000ULL);
 #define RD_GUARD_END(prop_site) } catch (const pplx::Logical_Timeout&) { hx::violation(std::string("C16.hang.") + (prop_site), "logical-time budget (weight 2e8) exceeded"); return; }
